@@ -201,7 +201,11 @@ impl PatchHeader {
                 .split_once('\n')
                 .map(|x| x.0)
                 .unwrap_or(description.as_str());
-            let new = format!("{}\n{}", first_line, long_description);
+            let new = if long_description.is_empty() {
+                first_line.to_string()
+            } else {
+                format!("{}\n{}", first_line, long_description)
+            };
             self.0.set("Description", new.as_str());
         } else if let Some(subject) = self.0.get("Subject") {
             // Keep the first line, but replace the rest with our text
@@ -209,7 +213,11 @@ impl PatchHeader {
                 .split_once('\n')
                 .map(|x| x.0)
                 .unwrap_or(subject.as_str());
-            let new = format!("{}\n{}", first_line, long_description);
+            let new = if long_description.is_empty() {
+                first_line.to_string()
+            } else {
+                format!("{}\n{}", first_line, long_description)
+            };
             self.0.set("Subject", new.as_str());
         } else {
             self.0.set("Description", long_description);
